@@ -490,11 +490,11 @@ headers, kinds of statements and the names they bind) they had when the model wa
 loop, early exit or rebinding has been added that the model does not describe -/
 theorem modelled_functions_have_the_transcribed_shape :
     MlVerif.Gen.C19.shapeFit =
-      "if(not isinstance(X, pandas.DataFrame)){raise};if(self.columns){columns=}else{columns=};self._fit_columns=;max_cat=;self._categories=;for(c in columns){distinct=;nb=;if(nb >= max_cat){raise};self._categories[]=};self._schema=;return" ∧
+      "sig(self, X, y=None, **fit_params)|if(not isinstance(X, pandas.DataFrame)){raise};if(self.columns){columns=}else{columns=};self._fit_columns=;max_cat=;self._categories=;for(c in columns){distinct=;nb=;if(nb >= max_cat){raise};self._categories[]=};self._schema=;return" ∧
     MlVerif.Gen.C19.shapeBuildSchema =
-      "schema=;position=;new_vector=;last=;for((c,v) in self._categories.items()){sch=;if(self.remove){sch=};position[]=;new_vector[]=;lastAdd=;call extend};return" ∧
+      "sig(self)|schema=;position=;new_vector=;last=;for((c,v) in self._categories.items()){sch=;if(self.remove){sch=};position[]=;new_vector[]=;lastAdd=;call extend};return" ∧
     MlVerif.Gen.C19.shapeTransform =
-      "if(not isinstance(X, pandas.DataFrame)){raise};if(self.single){b=;def transform{if(v in vec){return};if(v is None){return};if(isinstance(v, float) and numpy.isnan(v)){return};if(not self.skip_errors){lv=;if(len(lv) > 20){lv=;call append};raise};return};(sch,pos,new_vector)=;X=;for(c in self._fit_columns){X[]=};return}else{dfcat=;dfnum=;(sch,pos,new_vector)=;vec=;res=;call fill;b=;for((i,row) in enumerate(dfcat.to_dict('records'))){for((k,v) in row.items()){if(v is None or (isinstance(v, float) and numpy.isnan(v))){continue};if(v not in vec[k]){if(b){lv=;if(len(lv) > 20){lv=;call append};raise};continue}else{p=};res[]=}};if(dfnum.shape[1] > 0){newdf=;allnum=}else{allnum=};return}" :=
+      "sig(self, X, y=None)|if(not isinstance(X, pandas.DataFrame)){raise};if(self.single){b=;def transform{if(v in vec){return};if(v is None){return};if(isinstance(v, float) and numpy.isnan(v)){return};if(not self.skip_errors){lv=;if(len(lv) > 20){lv=;call append};raise};return};(sch,pos,new_vector)=;X=;for(c in self._fit_columns){X[]=};return}else{dfcat=;dfnum=;(sch,pos,new_vector)=;vec=;res=;call fill;b=;for((i,row) in enumerate(dfcat.to_dict('records'))){for((k,v) in row.items()){if(v is None or (isinstance(v, float) and numpy.isnan(v))){continue};if(v not in vec[k]){if(b){lv=;if(len(lv) > 20){lv=;call append};raise};continue}else{p=};res[]=}};if(dfnum.shape[1] > 0){newdf=;allnum=}else{allnum=};return}" :=
   ⟨rfl, rfl, rfl⟩
 
 /-! ### non-vacuity: concrete instances satisfying the hypotheses -/
